@@ -965,7 +965,7 @@ func c09VerifyEncoding(st *c09State, c CaseC09, what string) *hx.Failure {
 var propC09 = hx.Register(hx.Prop[CaseC09]{ID: "C09", Gen: genC09, Check: checkC09})
 
 func c09Rule() {
-	hx.Rec("C09").SetRule("cases: a reference-model signal (C08 generator; time-less time_signal / splice_insert forms added on the API path) realised either (api) through CreateSCTE35/Create*Command/CreateSegmentationDescriptor/CreateUPID/CreateComponentOffset and setters with a drawn selection of set-then-clear noise, out-of-width values and UPID-kind switching, or (decoded) by decoding the reference encoding; then a drawn history of 0..8 further setter calls out of 44 kinds (signal, command, descriptor, descriptor-list and command replacement, adopting a descriptor of another signal and editing it through the caller's handle, editing MID entries and components through the handles the getters return, a descriptor's own component / MID list handed back reordered; the byte slices given to SetUPID are adjacent windows of one caller buffer) is applied to the library object and to the model. Oracle: UpdateData() = reference encoding of the model in the library's normal form, byte for byte (alignment-stuffing byte values masked); reference CRC residue 0; section_length consistent; Data() unchanged by setters and equal to the encoding afterwards; UpdateData twice and String() leave the bytes unchanged; descriptor getters reflect the setters; decoding the encoded bytes reports the model (when the decoder supports the form); with an empty history a decoded canonical section re-encodes to itself. Non-trivial: cancelled/component/immediate splice_insert, a field with a bit >= 32, >= 2 descriptor shapes or >= 2 descriptors, set-then-clear noise, or a flag cleared by a setter.",
+	hx.Rec("C09").SetRule("cases: a reference-model signal (C08 generator; time-less time_signal / splice_insert forms added on the API path) realised either (api) through CreateSCTE35/Create*Command/CreateSegmentationDescriptor/CreateUPID/CreateComponentOffset and setters with a drawn selection of set-then-clear noise, out-of-width values and UPID-kind switching, or (decoded) by decoding the reference encoding; then a drawn history of 0..8 further setter calls out of 46 kinds (editing the components of a decoded splice_insert through the handles Components() returns, the descriptor list set again with one of its handles repeated, signal, command, descriptor, descriptor-list and command replacement, adopting a descriptor of another signal and editing it through the caller's handle, editing MID entries and components through the handles the getters return, a descriptor's own component / MID list handed back reordered; the byte slices given to SetUPID are adjacent windows of one caller buffer) is applied to the library object and to the model. Oracle: UpdateData() = reference encoding of the model in the library's normal form, byte for byte (alignment-stuffing byte values masked); reference CRC residue 0; section_length consistent; Data() unchanged by setters and equal to the encoding afterwards; UpdateData twice and String() leave the bytes unchanged; descriptor getters reflect the setters; decoding the encoded bytes reports the model (when the decoder supports the form); with an empty history a decoded canonical section re-encodes to itself. Non-trivial: cancelled/component/immediate splice_insert, a field with a bit >= 32, >= 2 descriptor shapes or >= 2 descriptors, set-then-clear noise, or a flag cleared by a setter.",
 		"foreign descriptors after a segmentation descriptor and splice_command_length 0xFFF are compared against the library's normal form (foreign first, real length)",
 		"after SetTypeID the sub-segment flag is re-set explicitly (undocumented interaction)",
 		"signals the decoder does not support (time-less forms) are checked against the reference encoder only")
